@@ -253,6 +253,22 @@ class _Scoped(ast.NodeTransformer):
             return ast.BoolOp(op=ast.Or(), values=tests), []
         if isinstance(p, ast.MatchClass) and not p.patterns and not p.kwd_patterns:
             return ast.Call(func=ast.Name(id="isinstance", ctx=ast.Load()), args=[load(), p.cls], keywords=[]), []
+        if isinstance(p, ast.MatchClass) and not p.patterns:
+            # Class(attr=name, other=VALUE): an instance whose attributes are captured / compared
+            tests = [ast.Call(func=ast.Name(id="isinstance", ctx=ast.Load()), args=[load(), p.cls], keywords=[])]
+            binds = []
+            for attr, pat in zip(p.kwd_attrs, p.kwd_patterns):
+                part = ast.Attribute(value=load(), attr=attr, ctx=ast.Load())
+                if isinstance(pat, ast.MatchAs) and pat.pattern is None:
+                    if pat.name:
+                        binds.append(ast.Assign(targets=[ast.Name(id=pat.name, ctx=ast.Store())], value=part, type_comment=None))
+                elif isinstance(pat, ast.MatchValue):
+                    tests.append(ast.Compare(left=part, ops=[ast.Eq()], comparators=[pat.value]))
+                elif isinstance(pat, ast.MatchSingleton):
+                    tests.append(ast.Compare(left=part, ops=[ast.Is()], comparators=[ast.Constant(value=pat.value)]))
+                else:
+                    return None
+            return (tests[0] if len(tests) == 1 else ast.BoolOp(op=ast.And(), values=tests)), binds
         return None
 
     def visit_Match(self, node):
